@@ -70,6 +70,7 @@ type Interp struct {
 	objSeq    int
 	hashApps  map[string][]hashApp
 	lastReal  bool
+	builtPkgs map[*ssa.Package]bool
 }
 
 func (fr *frame) get(key ssa.Value) Value {
@@ -794,8 +795,11 @@ func (in *Interp) callSSA(caller *frame, callpos token.Pos, fn *ssa.Function, ar
 	if intr != nil {
 		return intr(in, fr, fn, args)
 	}
-	if fn.Blocks == nil && fn.Pkg != nil {
+	if fn.Pkg != nil && !in.builtPkgs[fn.Pkg] {
+		// Build() blocks until the package is completely built (another worker may be building it right now;
+		// looking at fn.Blocks before that would race)
 		fn.Pkg.Build()
+		in.builtPkgs[fn.Pkg] = true
 	}
 	if fn.Blocks == nil {
 		if in.initDepth > 0 {
